@@ -474,6 +474,16 @@ func c11(c *Ctx) (*report.Result, error) {
 	checkSessionIDs(c, res, "O11.6")
 	res.RuleDoc["O11.8"] = "locks are paired (same analysis as O8.13): every Lock / RLock of the transport packages is released on every way out of its function and every Unlock is preceded by its Lock - a leaked session-table or connection-map lock parks every later session change and dial"
 	checkLockPairing(c, res, "O11.8", []string{"transport/grpcutil", "transport/mux"}, 8)
+	res.RuleDoc["O11.12"] = "a dead session is always deregistered: waitAndCleanup runs the shutdown callback on every path, whatever state the health check left the session in (the waitAndCleanup obligations of O10.2, imported) - the callback is what removes the session from the manager's table and so from the client connection's endpoints; a callback that runs only on the Connected -> Closed transition leaves a session that last failed a ping registered and dialable after it died"
+	if r10, err := Registry["C10"](c); err == nil && r10 != nil {
+		if n := importObligations(res, r10, "O11.12", func(o report.Obligation) bool {
+			return o.Rule == "O10.2" && strings.Contains(o.Construct, "waitAndCleanup")
+		}); n < 4 {
+			res.Undec("O11.12", "waitAndCleanup obligations of O10.2", "", fmt.Sprintf("%d imported, at least 4 expected", n))
+		}
+	} else {
+		res.Undec("O11.12", "waitAndCleanup obligations of O10.2", "", "C10 rule set failed")
+	}
 	res.RuleDoc["O11.11"] = "a session whose peer vanished without a FIN stops being an endpoint: both yamux session factories hand yamux a config with keep-alive enabled (same analysis as O10.12) - the keep-alive loop is the only code that closes such a session, and closing is what deregisters it, updates the client's endpoints and frees the slot; the health check and the observer only record state"
 	checkYamuxKeepAlive(c, res, "O11.11")
 	res.RuleDoc["O11.10"] = "a session whose peer never answered is not published: every function of the module that returns its named error result has assigned it somewhere (an inner `err :=` shadows it otherwise and the function reports success whatever its calls returned - the provider's first ping is what keeps a dead connection from becoming an endpoint)"
